@@ -196,6 +196,8 @@ class SymArray(ExtensionArray):
         vals = [v for v in self._d if not _isna(v)]
         has_na = len(vals) != len(self._d)
         r = self._reduce1(name, vals, has_na and not skipna, min_count, **kwargs)
+        if isinstance(r, float):
+            r = np.float64(r)  # numpy scalar semantics (x/0 -> inf/nan, no ZeroDivisionError) as in the real code
         if keepdims:
             return type(self)([r])
         return r
